@@ -623,7 +623,7 @@ func c05Gen(m *wdMon, blk, nBlocks, idx int, addrPool []addrCase) {
 	if blk < nBlocks-25 {
 		for k := r.Intn(3); k > 0 && m.next < 12+uint64(blk/4); k-- {
 			amt := []uint64{30_000, 100_000, 1_000_000, 5_000_000_000}[r.Intn(4)]
-			price := []uint64{1, 5, 50, 1000}[r.Intn(4)]
+			price := []uint64{1, 5, 50, 1000, 0, 5, 1, 50}[r.Intn(8)] // 0 = no fee rate is acceptable: such a withdrawal can only be cancelled
 			addr, _ := world.P2WPKH(world.Derive(c.Seed, "wdaddr", int(m.next)*100+idx)[:20], regtest)
 			if r.Intn(5) == 0 {
 				addr = addrPool[r.Intn(len(addrPool))].Str
@@ -634,7 +634,7 @@ func c05Gen(m *wdMon, blk, nBlocks, idx int, addrPool []addrCase) {
 		}
 		if ids := m.idsIn("pending", "processing", "paid", "canceled"); len(ids) > 0 && r.Intn(4) == 0 {
 			id := ids[r.Intn(len(ids))]
-			p := []uint64{1, 3, 20, 200, 5000}[r.Intn(5)]
+			p := []uint64{1, 3, 20, 200, 5000, 0}[r.Intn(6)]
 			b.bridgeReq.ReplaceByFees = append(b.bridgeReq.ReplaceByFees, &goattypes.ReplaceByFeeRequest{Id: id, TxPrice: p})
 			lh.logf("EL: rbf #%d price %d", id, p)
 		}
